@@ -105,6 +105,28 @@ def gen_cascade(rnd, n=None, mapped=True):
         for p in prev:
             consumed[p] = consumed.get(p, 0) + 1
         produced.append(out)
+    if n >= 2 and rnd.random() < 0.15:
+        # an output written twice (as tests/integration/example7 does) and read again after
+        # the second write, non-concordantly if the rank orders say so
+        victims = [p for p in produced[:-1] if decl[p] and consumed.get(p)]
+        if victims:
+            pv = rnd.choice(victims)
+            f = next(fresh)
+            decl[f] = list(decl[pv])
+            rnd.shuffle(decl[f])
+            user_inputs.append(f)
+            exprs.append(Einsum(_acc(pv, decl[pv]), [Term("times", [_acc(f, decl[f])])]))
+            g = next(fresh)
+            decl[g] = list(decl[pv])
+            rnd.shuffle(decl[g])
+            user_inputs.append(g)
+            rd = "W9"
+            decl[rd] = [r for r in decl[pv] if rnd.random() < 0.7] or list(decl[pv][:1])
+            fs = [_acc(pv, decl[pv]), _acc(g, decl[g])]
+            rnd.shuffle(fs)
+            exprs.append(Einsum(_acc(rd, decl[rd]), [Term("times", fs)]))
+            produced.append(rd)
+            tags.append("output-written-twice")
     if any(v > 1 for v in consumed.values()):
         tags.append("consumed-twice")
     if shared_input:
